@@ -78,6 +78,26 @@ func ruleRecordWrappers(c *Checker, rule string) {
 					if isErrorType(v.Type()) && !isNilConst(v) {
 						continue // an error is never a false success
 					}
+					// the unpacked form `x, err := m.F(); if err != nil { return zero, err }; return x, nil`:
+					// a nil error under the fact "the Machine's error is nil", a zero value under the fact
+					// "the Machine's error is not nil" (not for Flush: its count matters on the error leg)
+					errRel := ""
+					for _, cl := range calls {
+						for _, ev := range machineErrValues(cl) {
+							for _, f := range factsAt(ret.Block()) {
+								if r := factRel(f, isCarrierOf(ev), isNilConst); r != "" {
+									errRel = r
+								}
+							}
+						}
+					}
+					if isErrorType(v.Type()) && isNilConst(v) && errRel == "==" {
+						continue
+					}
+					if k, isK := v.(*ssa.Const); isK && !isErrorType(v.Type()) && d.wrapper != "Flush" && errRel == "!=" &&
+						(k.Value == nil || k.Value.String() == "0") {
+						continue
+					}
 					bad = "the return at " + w.pos(instrPos(ret)) + " hands out " + w.canonFB(v) + " instead of what Machine." + d.target + " reported"
 				}
 			}
@@ -321,6 +341,45 @@ func ruleListenerClose(c *Checker) {
 		b, ok := call.Common().Value.(*ssa.Builtin)
 		return ok && b.Name() == "close" && isLoadOfField(call.Common().Args[0], fQuit)
 	}
+	// the same step inside the function literal of a sync.Once.Do (an idempotent Close) counts when
+	// every path through the literal passes it
+	viaOnce := func(is func(ssa.Instruction) bool) func(ssa.Instruction) bool {
+		return func(in ssa.Instruction) bool {
+			if is(in) {
+				return true
+			}
+			call, ok := in.(*ssa.Call)
+			if !ok || !staticCalleeIs(call.Common(), "sync", "Once", "Do") || len(call.Common().Args) < 2 {
+				return false
+			}
+			mc, ok := call.Common().Args[1].(*ssa.MakeClosure)
+			if !ok {
+				return false
+			}
+			lit, ok := mc.Fn.(*ssa.Function)
+			if !ok {
+				return false
+			}
+			all := true
+			allInstrs(lit, func(x ssa.Instruction) {
+				if ret, ok := x.(*ssa.Return); ok && pathFromEntry(lit, ret, is) {
+					all = false
+				}
+			})
+			return all
+		}
+	}
+	isCancelFV := isCancel
+	isCancel = viaOnce(func(in ssa.Instruction) bool {
+		if isCancelFV(in) {
+			return true
+		}
+		// inside the literal the receiver is a captured variable: a call through a load of the
+		// cancel field of whatever the literal captured
+		call, ok := in.(*ssa.Call)
+		return ok && !call.Common().IsInvoke() && isLoadOfField(call.Common().Value, fCancel)
+	})
+	isCloseQuit = viaOnce(isCloseQuit)
 	for _, step := range []struct {
 		name string
 		is   func(ssa.Instruction) bool
@@ -795,4 +854,20 @@ func ruleMnemonicTotal(c *Checker, fn *ssa.Function) {
 	c.decide(bad == "" && n > 0 && len(readErr) > 0, "CODEC-SIB", "EntropyToMnemonic|total over the 11-bit groups", fn.Pos(),
 		"the only failure is the bit reader's own error",
 		"PassphraseEntropyToMnemonic can refuse a representable bit group: "+bad+" - some entropies have no phrase, so entropy and mnemonic are not inverses for them")
+}
+
+// machineErrValues: the error result(s) of a call (the call itself when it returns only an error).
+func machineErrValues(cl *ssa.Call) []ssa.Value {
+	if tup, ok := cl.Type().(*types.Tuple); ok {
+		var out []ssa.Value
+		if cl.Referrers() != nil {
+			for _, r := range *cl.Referrers() {
+				if ex, ok := r.(*ssa.Extract); ok && ex.Index == tup.Len()-1 {
+					out = append(out, ex)
+				}
+			}
+		}
+		return out
+	}
+	return []ssa.Value{cl}
 }
